@@ -178,6 +178,10 @@ def judge(chk, case, sched, code, err, out, tag):
 
 def main(chk):
     chk.prove()
+    tok, tmsg = getattr(chk, 'translators', {}).get('bp', (True, ''))
+    if not tok:
+        chk.violation(dict(kind='translator'), 'GraphicalModel.belief_propagation left the translated subset: C01_src_exact is not re-checked against the current source',
+                      dict(broken='Gen/BP_gen.v (translator/py2gallina_bp.py on src/mbi/graphical_model.py); Props/C01.v C01_src_*', translator_message=tmsg), found_input=False)
     rng = chk.rng
     n = 200 if chk.tier == 'quick' else 2500
     pending = []
@@ -195,8 +199,30 @@ def main(chk):
             chk.count('stream.' + case['stream']); chk.count('order.' + case['mode']); chk.count('ncliques=%d' % len(case['mcl'])); chk.count('schedule.' + tag.split()[0])
             pending.append((case, sched, code, err, line, tag))
     outs = common.run_model([p[4] for p in pending], timeout=2400)
-    for (case, sched, code, err, line, tag), out in zip(pending, outs):
+    # the definition GENERATED from GraphicalModel.belief_propagation by translator/py2gallina_bp.py, on the same cases
+    # (the 2^+-1200 stream is left to the hand model: big-rational arithmetic dominates; the logZ branch is exercised on every third case)
+    gsel = [k for k, p in enumerate(pending) if p[0]['stream'] != 'huge' or chk.tier != 'quick']
+    glines = ['bp_src' + pending[k][4][2:].rsplit(' ', 1)[0] + (' 1' if k % 3 == 0 else ' 0') for k in gsel]
+    gmap = dict(zip(gsel, common.run_gen(glines, timeout=2400)))
+    for k, ((case, sched, code, err, line, tag), out) in enumerate(zip(pending, outs)):
         judge(chk, case, sched, code, err, out, tag)
+        if k not in gmap:
+            continue
+        gout = gmap[k]
+        chk.count('generated-bp')
+        hand = out.split(' ', 1)[1] if ' ' in out and not out.startswith('EXC') else out
+        if gout.startswith('- ') and ' ' in hand:
+            hand = '- ' + hand.split(' ', 1)[1]
+        if gout != hand:
+            chk.violation(dict(kind='translator-validation', what='bp'), 'the definition generated from belief_propagation disagrees with the hand-written model it is proved equal to (or could not be run)',
+                          dict(jsonable(case, sched), generated=gout[:300], model=hand[:300], broken='translator validation: translator/py2gallina_bp.py <-> src/mbi/graphical_model.py'), found_input=False)
+        # hypothesis sep_ok of C01_src_exact: self.sep_axes[(i,j)] lists exactly the attributes shared by the two cliques
+        m = case['model']
+        for (i, j) in sched:
+            sa = m.sep_axes.get((i, j))
+            if sa is None or set(sa) != set(i) & set(j) or len(sa) != len(set(sa)):
+                chk.violation(dict(kind='sep-axes'), 'sep_axes[(%s,%s)] = %s is not the set of shared attributes' % (''.join(i), ''.join(j), sa), jsonable(case, sched), found_input=True)
+                break
     return chk.finish(rule='random domains (2-6 attributes in arbitrary order, sizes 1-4), 1-6 input cliques (cyclic, disconnected, nested, duplicated, any attribute order), '
                       'elimination order in {None, random permutation, int k}, totals {1,10,0.3,1234.5}, potentials on the maximal cliques from four streams '
                       '(small rationals / 40% zeros=-inf / 2^+-1200 magnitudes / unit) with permuted internal attribute order; message_order replaced by a random linear extension '
